@@ -673,5 +673,6 @@ def check_C14(P, tier):
     R.add(pc.make_cache_obligation(P))
     R.add([o for o in pw.range_steps_obligations(P)])
     R.add(pw.scratch_memo_obligations(P))
+    R.add(pw.interface_memo_obligations(P))
     R.analysed = {"files": ["src/bldfm/interface.py", "src/bldfm/cli.py"], "functions": ["run_bldfm_timeseries", "run_bldfm_multitower", "run_bldfm_parallel", "_worker_single", "_worker_timeseries", "_make_cache", "cmd_run"], "paths": 8}
     return R, "ordered-executor contract, generic-element list semantics, positional re-assembly, worker tuples"
